@@ -2,6 +2,7 @@
     Statements only; proofs live in Proofs/.  [gf_prog] is the program GENERATED from
     crates/sl-oblivious/src/soft_spoken/mul_poly.rs on every run (tie T1). *)
 From SL Require Import Lib.Base Model.ByteLang Model.Gf128 Gen.GfProg Proofs.Gf128Basis.
+From SL Require Import Proofs.ByteLangLin Proofs.Gf128Spec Proofs.Gf128Correct.
 
 (** The generated program never panics: every index, shift amount and slice copy is in range
     (indices depend on loop counters only, so this is decided by running the bounds checker). *)
@@ -17,3 +18,113 @@ Proof. exact gf_basis_agree_all. Qed.
 Check gf_basis_correct : forall i j, (i < 128)%nat -> (j < 128)%nat ->
   gf_prog (mono i) (mono j) = gf_spec_bytes (mono i) (mono j).
 Print Assumptions gf_basis_correct.
+
+(** The linearity type system of Model/ByteLang.v is sound, for EVERY program: three runs whose
+    environments are related (public parts equal, linear parts E12 = E1 xor E2 bytewise) stay related. *)
+Theorem bytelang_lin_sound : forall cls p lt E1 E2 E12,
+  lin_s cls lt p = true -> rel cls lt E1 E2 E12 -> rel cls lt (run p E1) (run p E2) (run p E12).
+Proof. exact lin_s_sound. Qed.
+Check bytelang_lin_sound : forall cls p lt E1 E2 E12,
+  lin_s cls lt p = true -> rel cls lt E1 E2 E12 -> rel cls lt (run p E1) (run p E2) (run p E12).
+Print Assumptions bytelang_lin_sound.
+
+(** MAIN THEOREM: on all 2^256 pairs of 16-byte operands the generated program returns the
+    little-endian bytes of the GF(2)[x]/(x^128+x^7+x^2+x+1) product of the operands. *)
+Theorem gf128_mul_correct : forall a b, bytes16 a = true -> bytes16 b = true ->
+  gf_prog a b = gf_spec_bytes a b.
+Proof. exact gf128_mul_correct_all. Qed.
+Check gf128_mul_correct : forall a b, bytes16 a = true -> bytes16 b = true ->
+  gf_prog a b = gf_spec_bytes a b.
+Print Assumptions gf128_mul_correct.
+
+(** The result is again a 16-byte string. *)
+Theorem gf128_closed : forall a b, bytes16 a = true -> bytes16 b = true ->
+  bytes16 (gf_prog a b) = true.
+Proof. exact gf_prog_closed. Qed.
+Check gf128_closed : forall a b, bytes16 a = true -> bytes16 b = true ->
+  bytes16 (gf_prog a b) = true.
+Print Assumptions gf128_closed.
+
+(** Commutativity of the implementation. *)
+Theorem gf128_comm : forall a b, bytes16 a = true -> bytes16 b = true ->
+  gf_prog a b = gf_prog b a.
+Proof. exact gf_prog_comm. Qed.
+Check gf128_comm : forall a b, bytes16 a = true -> bytes16 b = true ->
+  gf_prog a b = gf_prog b a.
+Print Assumptions gf128_comm.
+
+(** Distributivity over XOR ([xorl] = bytewise [N.lxor]), right operand. *)
+Theorem gf128_distr_r : forall a b1 b2, bytes16 a = true -> bytes16 b1 = true -> bytes16 b2 = true ->
+  gf_prog a (xorl b1 b2) = xorl (gf_prog a b1) (gf_prog a b2).
+Proof. exact gf_prog_distr_r. Qed.
+Check gf128_distr_r : forall a b1 b2, bytes16 a = true -> bytes16 b1 = true -> bytes16 b2 = true ->
+  gf_prog a (xorl b1 b2) = xorl (gf_prog a b1) (gf_prog a b2).
+Print Assumptions gf128_distr_r.
+
+(** Distributivity over XOR, left operand. *)
+Theorem gf128_distr_l : forall a1 a2 b, bytes16 a1 = true -> bytes16 a2 = true -> bytes16 b = true ->
+  gf_prog (xorl a1 a2) b = xorl (gf_prog a1 b) (gf_prog a2 b).
+Proof. exact gf_prog_distr_l. Qed.
+Check gf128_distr_l : forall a1 a2 b, bytes16 a1 = true -> bytes16 a2 = true -> bytes16 b = true ->
+  gf_prog (xorl a1 a2) b = xorl (gf_prog a1 b) (gf_prog a2 b).
+Print Assumptions gf128_distr_l.
+
+(** The monomial x^0 (the byte string 01 00 .. 00) is a right and left identity. *)
+Theorem gf128_one_r : forall a, bytes16 a = true -> gf_prog a (mono 0) = a.
+Proof. exact gf_prog_one_r. Qed.
+Check gf128_one_r : forall a, bytes16 a = true -> gf_prog a (mono 0) = a.
+Print Assumptions gf128_one_r.
+
+(** Left identity. *)
+Theorem gf128_one_l : forall a, bytes16 a = true -> gf_prog (mono 0) a = a.
+Proof. exact gf_prog_one_l. Qed.
+Check gf128_one_l : forall a, bytes16 a = true -> gf_prog (mono 0) a = a.
+Print Assumptions gf128_one_l.
+
+(** Zero annihilates. *)
+Theorem gf128_zero_r : forall a, bytes16 a = true -> gf_prog a (repeat 0%N 16) = repeat 0%N 16.
+Proof. exact gf_prog_zero_r. Qed.
+Check gf128_zero_r : forall a, bytes16 a = true -> gf_prog a (repeat 0%N 16) = repeat 0%N 16.
+Print Assumptions gf128_zero_r.
+
+(** Associativity of the implementation. *)
+Theorem gf128_assoc : forall a b c, bytes16 a = true -> bytes16 b = true -> bytes16 c = true ->
+  gf_prog (gf_prog a b) c = gf_prog a (gf_prog b c).
+Proof. exact gf_prog_assoc. Qed.
+Check gf128_assoc : forall a b c, bytes16 a = true -> bytes16 b = true -> bytes16 c = true ->
+  gf_prog (gf_prog a b) c = gf_prog a (gf_prog b c).
+Print Assumptions gf128_assoc.
+
+(** Field laws of the specification on numbers below 2^128: commutativity. *)
+Theorem gf_spec_comm : forall a b, (a < two128)%N -> (b < two128)%N -> gf_spec a b = gf_spec b a.
+Proof. exact spec_comm. Qed.
+Check gf_spec_comm : forall a b, (a < two128)%N -> (b < two128)%N -> gf_spec a b = gf_spec b a.
+Print Assumptions gf_spec_comm.
+
+(** Associativity of the specification. *)
+Theorem gf_spec_assoc : forall a b c, (a < two128)%N -> (b < two128)%N -> (c < two128)%N ->
+  gf_spec (gf_spec a b) c = gf_spec a (gf_spec b c).
+Proof. exact spec_assoc. Qed.
+Check gf_spec_assoc : forall a b c, (a < two128)%N -> (b < two128)%N -> (c < two128)%N ->
+  gf_spec (gf_spec a b) c = gf_spec a (gf_spec b c).
+Print Assumptions gf_spec_assoc.
+
+(** Bilinearity of the specification (right operand: no bound needed). *)
+Theorem gf_spec_lxor_r : forall a b1 b2, gf_spec a (N.lxor b1 b2) = N.lxor (gf_spec a b1) (gf_spec a b2).
+Proof. exact spec_lxor_r. Qed.
+Check gf_spec_lxor_r : forall a b1 b2, gf_spec a (N.lxor b1 b2) = N.lxor (gf_spec a b1) (gf_spec a b2).
+Print Assumptions gf_spec_lxor_r.
+
+(** Bilinearity of the specification (left operand). *)
+Theorem gf_spec_lxor_l : forall a1 a2 b, (a1 < two128)%N -> (a2 < two128)%N ->
+  gf_spec (N.lxor a1 a2) b = N.lxor (gf_spec a1 b) (gf_spec a2 b).
+Proof. exact spec_lxor_l. Qed.
+Check gf_spec_lxor_l : forall a1 a2 b, (a1 < two128)%N -> (a2 < two128)%N ->
+  gf_spec (N.lxor a1 a2) b = N.lxor (gf_spec a1 b) (gf_spec a2 b).
+Print Assumptions gf_spec_lxor_l.
+
+(** Multiplication by x commutes with the product (the structural lemma behind associativity). *)
+Theorem gf_spec_xtime : forall a c, (a < two128)%N -> gf_spec (xtime a) c = xtime (gf_spec a c).
+Proof. exact spec_xtime_l. Qed.
+Check gf_spec_xtime : forall a c, (a < two128)%N -> gf_spec (xtime a) c = xtime (gf_spec a c).
+Print Assumptions gf_spec_xtime.
